@@ -23,7 +23,8 @@ RULE = (
     "history of 1..10 commands from {pump async_set_mode / set_mode (every mode label), blower / lights / eco async_turn_on/off "
     "and turn_on/off, heater async_set_target_temperature / set_target_temperature, async_set_temperature_unit, watercare "
     "async_set_mode (index or name)} with generated arguments, each optionally preceded by a spa-side state change (demand "
-    "and state items re-written by the model and echoed) so commands meet every current state. Non-trivial = an on/off "
+    "and state items re-written by the model and echoed) so commands meet every current state; optionally a watercare command "
+    "issued 0..250 ms into the facade's own periodic watercare poll. Non-trivial = an on/off "
     "command issued when the device already is in that state, or a write into a bit field whose neighbours are non-zero; "
     "distinct by canonical case."
 )
@@ -69,8 +70,9 @@ def strategy(tier):
     poke = st.one_of(st.none(), st.tuples(st.sampled_from(["P1", "P2", "P3", "BL", "LI", "Waterfall", "eco"]), st.integers(0, 3)).map(list))
     step = st.tuples(poke, cmd).map(list)
     wire = st.one_of(st.just([]), st.lists(st.integers(0, len(WIRE_LABELS) - 1), min_size=1, max_size=8))
-    return st.builds(lambda s, w, h, k: {"snapshot": s, "wire": w, "history": h, "stack": k},
-                     st.integers(0, n - 1), wire, st.lists(step, min_size=1, max_size=10), st.sampled_from(["async", "async", "blocking"]))
+    overlap = st.one_of(st.none(), st.none(), st.tuples(st.sampled_from([0, 10, 50, 100, 150, 250]), st.integers(0, 4)).map(list))
+    return st.builds(lambda s, w, h, k, ov: dict({"snapshot": s, "wire": w, "history": h, "stack": k}, **({"wc_overlap": ov} if ov and k == "async" else {})),
+                     st.integers(0, n - 1), wire, st.lists(step, min_size=1, max_size=10), st.sampled_from(["async", "async", "blocking"]), overlap)
 
 
 # ------------------------------------------------------------------ the model spa
@@ -396,13 +398,32 @@ def _run_async(res, case, snap, pair, history, info):
         try:
             clients.keep_ping_fresh(spa, W)
             fac = GeckoAsyncFacade(spa, tm)
-            for t in list(tm._tasks):
-                if t.get_name() == "FACADE:Facade update":
-                    t.cancel()   # only the tested commands talk
-            await W.sleep(0.3)
-            pack_type = spa.pack_class.type
             wc_calls = []
             fac.water_care.watch(lambda *a: wc_calls.append(a))
+            ov = case.get("wc_overlap")
+            if ov:
+                # a watercare command issued while the facade's own periodic poll (GETWC, then REQRM) is in flight: the stale
+                # answer of the poll must not win over the command
+                await W.sleep(max(0, int(ov[0])) / 1000.0)
+                mode = int(ov[1]) % 5
+                n0 = len(peer.commands)
+                await fac.water_care.async_set_mode(mode)
+                for _ in range(40):
+                    await W.sleep(0.25)
+                    if W.in_flight == 0 and spa._protocol.queue.qsize() == 0 and not spa._protocol.Lock.locked():
+                        break
+                got = [g for g in peer.commands[n0:]]
+                if [g.get("mode") for g in got if g["verb"] == "SETWC"] != [mode] or len(got) != 1:
+                    res.fail("C13|command-count|wc-overlap", f"async water_care.set_mode({mode}) during the facade's poll sent {[g['raw'] for g in got]}")
+                if fac.water_care.mode != mode or peer.wc_mode != mode:
+                    res.fail("C13|readback|watercare-overlap", f"async water_care.set_mode({mode}) issued {ov[0]} ms into the facade's own watercare poll: the spa is in mode "
+                             f"{peer.wc_mode}, the facade reads {fac.water_care.mode} (notifications {[(a[1], a[2]) for a in wc_calls]})")
+                info["overlap"] = True
+            for t in list(tm._tasks):
+                if t.get_name() == "FACADE:Facade update":
+                    t.cancel()   # from here on only the tested commands talk
+            await W.sleep(0.3)
+            pack_type = spa.pack_class.type
 
             async def settle():
                 for _ in range(200):
@@ -550,4 +571,6 @@ def run_case(case) -> Result:
         res.label("bitfield-neighbours-set")
     if info["skipped"]:
         res.label("device-absent-skipped")
+    if info.get("overlap"):
+        res.label("watercare-command-during-poll")
     return res
